@@ -34,6 +34,7 @@ def run(prog, kind):
     """-> (problems, number of folds)"""
     f = prog.func('nfc.tag.%s.Type%sTag.NDEF._write_ndef_data' % (kind, kind[2]))
     problems, n = [], 0
+    phases = []
     for end, off, name, skip in layouts():
         usable = len(set(range(off, end)) - skip)
         cap = usable - (4 if usable > 256 else 2)
@@ -48,8 +49,12 @@ def run(prog, kind):
                 image[10] = end // 8 - 1
             orig = bytes(image)
             msg = bytes((i % 200) + 1 for i in range(ln))
+            snaps = []
+
+            def sync():
+                snaps.append(bytes(image))
             env = {'data': bytearray(msg), 'self._tag_memory': image, 'self._skip_bytes': set(skip), 'self._ndef_tlv_offset': off,
-                   'self._capacity': cap, '__calls__': {'tag_memory.synchronize': lambda: None, 'self._tag_memory.synchronize': lambda: None}}
+                   'self._capacity': cap, '__calls__': {'tag_memory.synchronize': sync, 'self._tag_memory.synchronize': sync}}
             where = '%s, data area 16..%d, NDEF TLV at %d, %s, %d byte message (capacity %d)' % (kind, end - 1, off, name, ln, cap)
             try:
                 fold_block(_body(f), env)
@@ -59,6 +64,21 @@ def run(prog, kind):
             except (IndexError, KeyError, TypeError, ValueError) as e:
                 problems.append('%s: raises %s: %s' % (where, type(e).__name__, e))
                 continue
+            # C02: what is handed to synchronize() -- every image but the last announces an empty message (L = 00h) in front of whatever
+            # the value area holds, and the image that first announces the new length already holds the whole message and is the last
+            # one (the order inside one flush is the subject of C02-R2 / its known finding)
+            phase = None
+            for k_, sn in enumerate(snaps):
+                announced = sn[off + 1] if sn[off + 1] != 0xFF else int.from_bytes(sn[off + 2:off + 4], 'big')
+                if k_ < len(snaps) - 1 and announced != 0:
+                    phase = 'the image flushed by synchronize() number %d of %d announces %d octets before the final flush' % (k_ + 1, len(snaps), announced)
+                    break
+            if phase is None and (not snaps or bytes(image) != snaps[-1]):
+                phase = 'the writer changes the image after its last synchronize() (never flushed)'
+            if phase is None and len(snaps) < 2 and ln > 0:
+                phase = 'message and length reach the tag in one flush (%d synchronize() calls)' % len(snaps)
+            if phase:
+                phases.append('%s: %s' % (where, phase))
             hdr = 2 if ln < 255 else 4
             allowed = set(range(off + 1, off + hdr)) | (set(range(off + hdr, end)) - skip)
             changed = [i for i in range(len(image)) if image[i] != orig[i]]
@@ -72,7 +92,16 @@ def run(prog, kind):
                 problems.append('%s: the message octets are not on the free addresses behind the length field' % where)
             elif (image[off + 1] if ln < 255 else int.from_bytes(image[off + 2:off + 4], 'big')) != ln:
                 problems.append('%s: the length field does not hold the message length' % where)
+    _PHASES[(id(prog), kind)] = phases
     return problems, n
+
+
+_PHASES = {}
+
+
+def phase_verdicts(prog, kind):
+    verdicts(prog)
+    return _PHASES.get((id(prog), kind), [])
 
 
 def verdicts(prog):
